@@ -750,6 +750,22 @@ def _run(ctx):
             ctx.disagree("descriptor (mutated bytes): exception class of read != model dec",
                          {"class": K.__name__, "bytes": hx(bb)[:400], "py": r[1], "model": a[:2], "mutation": how})
 
+    # ------------------------------------------------------------------ an item as a container stores it (OSType + value)
+    tsel = [c for c in dec_cases if len(c[3][1]) <= 4000 and c[4]]        # well-formed values: read back as themselves
+    tsel = tsel[:: max(1, len(tsel) // (200 if quick else 3000))]
+    treqs, texp = [], []
+    for c in tsel:
+        lw = py_write(D.List([c[1]]))                 # count (4 bytes), OSType, value
+        if lw[0] == "ok":
+            treqs.append(("desc.decTagged", hx(lw[1]), 4))
+            texp.append((c, len(lw[1])))
+    for (c, end), a in zip(texp, cc.pbatch(treqs)):
+        ctx.corr_cases += 1
+        ctx.count(("desc-tagged", c[2]), nontrivial=True)
+        if a[0] != "ok" or a[1] != c[2] or int(a[2]) != end:
+            ctx.disagree("descriptor: an item written by List.write is not read back by the model's OSType dispatch",
+                         {"class": type(c[1]).__name__, "value": _short(c[2]), "model": a[:1]})
+
     # ------------------------------------------------------------------ block wrappers
     bcases = []
     bsel = blocks if not quick else (rng.sample(blocks, 150) if len(blocks) > 150 else blocks)
